@@ -422,7 +422,7 @@ OnRet(m, e) ==
     R(m0, common \cup If(cls = {} /\ m.pongs = cl.pongs0, "C11_OwnResponse"))
   ELSE IF meth = "ReadSlices" THEN
     LET isClosed == "closed" \in cls
-        got == e.got /\ e.tag # 0
+        got == (e.got \/ "big" \in cls) /\ e.tag # 0
         \* which inbound delivery does this return belong to: the oldest not yet returned in this cycle with that tag
         id == IF Has(m.inb, e.tag) THEN e.tag ELSE 0   \* inbound deliveries are kept per message tag
         \* suppression is owed from the moment the marker Save succeeded (DESIGN appendix C)
@@ -437,9 +437,15 @@ OnRet(m, e) ==
                          !.downSure = IF cls # {} /\ ~isClosed /\ "big" \notin cls THEN m.attemptOpen ELSE @,
                          !.held = IF got /\ id # 0 THEN {id} ELSE {},
                          !.inb = IF got /\ id # 0 THEN [@ EXCEPT ![id].returned = @ + 1] ELSE @]
-    IN R(m1, If(again, "C04_OncePerCycle")
+        \* the owed acknowledgement goes out at the start of the next invocation, before anything else is
+        \* read: the same message cannot come back unacknowledged once ownership was taken (same process)
+        unacked == got /\ id # 0 /\ m.inb[id].qos > 0 /\ m.inb[id].returned >= 1 /\ m.inb[id].owned
+                   /\ m.inb[id].ownedGen = m.gen /\ m.inb[id].acks = 0
+    IN R(m1, If(again, "C04_OncePerCycle") \cup If(unacked, "C07_AckBeforeRedelivery")
              \cup If(cl.afterClose /\ ~isClosed, "C12_ErrClosedAfter")
-             \cup If(got /\ id = 0 /\ e.tag \notin m.sent0 /\ ~m.hostile, "C06_ReturnedEqualsSent"))
+             \cup If(got /\ id = 0 /\ e.tag \notin m.sent0 /\ ~m.hostile, "C06_ReturnedEqualsSent")
+             \* a BigMessage whose Size matches no message the broker sent
+             \cup If("big" \in cls /\ e.tag = 0 /\ ~m.hostile, "C06_ReturnedEqualsSent"))
   ELSE IF meth \in {"Close", "Disconnect"} THEN
     R([m0 EXCEPT !.closeRet = TRUE], common)
   ELSE R(m0, common)
@@ -510,6 +516,9 @@ OnGate(m, e) ==
 ObsStep(m, e) ==
   CASE e.e = "begin" -> R([Init0 EXCEPT !.gen = 1, !.amax = IF e.amax < 0 \/ e.amax > IdMod THEN IdMod ELSE e.amax,
                                        !.emax = IF e.emax < 0 \/ e.emax > IdMod THEN IdMod ELSE e.emax, !.clean = e.clean], {})
+    [] e.e = "snap" -> R(m, IF m.phase = "epi" /\ ~m.closedEarly /\ m.damaged = {} /\ ~m.hostile
+                                  /\ (e.q1 # Len(Pending(m, 1)) \/ e.q2 # Len(Pending(m, 2)))
+                               THEN {"C17_QueueMatchesPending"} \cup If(m.refused # {}, "C14_PersistErrorNotEnqueued") ELSE {})
     [] e.e = "gate" -> OnGate(m, e)
     [] e.e = "st" -> OnStore(m, e)
     [] e.e = "cw" -> OnWrite(m, e)
